@@ -459,7 +459,8 @@ func (c *Client) Get(
 		if err := c.logs(ctx, url, filter, bm, start, limit); err != nil {
 			return nil, fmt.Errorf("getting logs: %w", err)
 		}
-	case filter.UseTraces:
+	}
+	if filter.UseTraces {
 		if err := c.traces(ctx, url, bm, start, limit); err != nil {
 			return nil, fmt.Errorf("getting traces: %w", err)
 		}
